@@ -384,6 +384,104 @@ fn modern_text_k(case: &Value, inputs: &Value) -> Value {
     json!({"text": to_json_bytes(text.as_bytes()), "modern": modern, "classic": classic})
 }
 
+// integer mode before / during / after compile_file and compile_program, starting from mode m0 with a
+// dialect whose int_fix is `fix`.  The mode is observed through convert_to_clvm_rs(Integer 0): nil in the
+// new mode, 0x00 in the legacy mode.  "During" is observed from a wrapped CompilerOpts (filename()) and a
+// wrapped program runner, both of which the compiler calls while it works.
+mod probe {
+    use super::*;
+    use chialisp::classic::clvm_tools::stages::stage_0::{RunProgramOption, TRunProgram};
+    use chialisp::compiler::clvm::convert_to_clvm_rs;
+    use chialisp::compiler::comptypes::{CompilerOpts, HasCompilerOptsDelegation};
+    use chialisp::compiler::dialect::AcceptedDialect;
+    use chialisp::compiler::sexp::SExp as R;
+    use chialisp::compiler::srcloc::Srcloc;
+    use clvmr::reduction::Response;
+    use std::cell::RefCell;
+
+    pub fn mode_now() -> bool {
+        let mut a = Allocator::new();
+        let n = convert_to_clvm_rs(&mut a, Rc::new(R::Integer(Srcloc::start("*t*"), 0u32.into()))).unwrap();
+        a.atom(n).as_ref().is_empty()
+    }
+
+    thread_local! { pub static SEEN: RefCell<Vec<bool>> = RefCell::new(Vec::new()); }
+
+    pub struct ProbeRunner {}
+    impl TRunProgram for ProbeRunner {
+        fn run_program(&self, allocator: &mut Allocator, program: NodePtr, args: NodePtr, option: Option<RunProgramOption>) -> Response {
+            SEEN.with(|s| s.borrow_mut().push(mode_now()));
+            DefaultProgramRunner::new().run_program(allocator, program, args, option)
+        }
+    }
+
+    #[derive(Clone)]
+    pub struct ProbeOpts { pub inner: Rc<dyn CompilerOpts>, pub fix: bool, pub armed: Rc<RefCell<bool>> }
+    impl HasCompilerOptsDelegation for ProbeOpts {
+        fn compiler_opts(&self) -> Rc<dyn CompilerOpts> { self.inner.clone() }
+        fn update_compiler_opts<F: FnOnce(Rc<dyn CompilerOpts>) -> Rc<dyn CompilerOpts>>(&self, f: F) -> Rc<dyn CompilerOpts> {
+            Rc::new(ProbeOpts { inner: f(self.inner.clone()), fix: self.fix, armed: self.armed.clone() })
+        }
+        fn override_dialect(&self) -> AcceptedDialect {
+            *self.armed.borrow_mut() = true;
+            let mut d = self.inner.dialect();
+            d.int_fix = self.fix;
+            d
+        }
+        fn override_filename(&self) -> String {
+            if *self.armed.borrow() { SEEN.with(|s| s.borrow_mut().push(mode_now())); }
+            self.inner.filename()
+        }
+    }
+}
+
+fn intmode_k(case: &Value, inputs: &Value) -> Value {
+    use chialisp::compiler::clvm::NewStyleIntConversion;
+    use chialisp::compiler::compiler::{compile_file, DefaultCompilerOpts};
+    use chialisp::compiler::comptypes::CompilerOpts;
+    use chialisp::compiler::dialect::AcceptedDialect;
+    use chialisp::compiler::sexp::parse_sexp;
+    use chialisp::compiler::srcloc::Srcloc;
+    use std::cell::RefCell;
+    use std::collections::HashMap;
+    let m0 = inputs["m0"].as_bool().unwrap();
+    let fix = inputs["fix"].as_bool().unwrap();
+    let _outer = NewStyleIntConversion::new(m0);
+    let before = probe::mode_now();
+    let mut a = Allocator::new();
+    let runner = Rc::new(probe::ProbeRunner {});
+    probe::SEEN.with(|s| s.borrow_mut().clear());
+    let mut restored = before == m0;
+    let default_sources = vec!["(mod (X) (defmacro m (A) (c (q . +) (c A (c (strlen (q . 1)) ())))) (defconstant K (+ 1 2)) (+ (m X) K))".to_string(),
+                               "(mod (X) (defmacro m (A) (c (q . +) (c A (c (strlen (q . 1)) ())))) (+ (m X) 1".to_string(),
+                               "(mod (X) (defmacro m (A) (c (q . +) (c A (c (strlen (q . 1)) ())))) (unknown-thing (m X) 1))".to_string()];
+    let sources: Vec<String> = match inputs.get("sources") {
+        Some(v) if v.is_array() => v.as_array().unwrap().iter().map(|x| x.as_str().unwrap().to_string()).collect(),
+        _ => default_sources,
+    };
+    let which = case["fn"].as_str().unwrap_or("compile_file");
+    for src in sources.iter() {
+        let mut syms = HashMap::new();
+        if which == "compile_program" {
+            let d = AcceptedDialect { stepping: Some(21), strict: false, int_fix: fix };
+            let opts: Rc<dyn CompilerOpts> = Rc::new(DefaultCompilerOpts::new("*t*")).set_dialect(d);
+            if let Ok(forms) = parse_sexp(Srcloc::start("*t*"), src.bytes()) {
+                if !forms.is_empty() {
+                    let _ = opts.compile_program(&mut a, runner.clone(), forms[0].clone(), &mut syms);
+                }
+            }
+        } else {
+            let inner: Rc<dyn CompilerOpts> = Rc::new(DefaultCompilerOpts::new("*t*"));
+            let opts: Rc<dyn CompilerOpts> = Rc::new(probe::ProbeOpts { inner, fix, armed: Rc::new(RefCell::new(false)) });
+            let _ = compile_file(&mut a, runner.clone(), opts, src, &mut syms);
+        }
+        restored = restored && probe::mode_now() == before;
+    }
+    let seen: Vec<bool> = probe::SEEN.with(|s| s.borrow().clone());
+    let during_ok = seen.iter().all(|m| *m == fix);
+    json!({"restored": restored, "during_ok": during_ok, "probes": seen.len()})
+}
+
 // assemble(text) -> tree (used to evaluate constant patterns natively)
 fn assemble_k(_case: &Value, inputs: &Value) -> Value {
     let mut a = Allocator::new();
@@ -398,6 +496,7 @@ pub fn dispatch(kernel: &str, case: &Value, inputs: &Value) -> Value {
         "assemble" => assemble_k(case, inputs),
         "int_from_bytes" => int_from_bytes_k(case, inputs),
         "decode" => decode_k(case, inputs),
+        "intmode" => intmode_k(case, inputs),
         "classic_text" => classic_text_k(case, inputs),
         "modern_text" => modern_text_k(case, inputs),
         "parse" => parse_k(case, inputs),
